@@ -59,6 +59,11 @@ FAMS = ["int", "str", "misc"]
 DEV_KEYS = {"dataclass-frozen-noninit-field", "dataclass-slots"}
 
 
+def _tick(ctx: Ctx, label: str) -> None:
+    if os.environ.get("VERIF_TIMING"):
+        print(f"  [{ctx.elapsed():6.1f}s] {label}", flush=True)
+
+
 def gen_cfg(nleaf, depth, width, kinds=ALL_KINDS, dcs="{1, 2, 3}", ocls="{}", allf=True, emit=True,
             invs=None, top=None, rootw=None):
     """Config text of Values_Gen.tla.  top = (kinds, dataclass flavours) of the roots of the deepest
@@ -151,8 +156,11 @@ class Real:
             return out
         _, passthru = nv.tasks()
         out: list = [None] * len(items)
+        budget = [40]  # scheduler runs spent on bisecting failing batches; beyond it items stay None
 
         def go(lo, hi):
+            if budget[0] <= 0:
+                return
             s = self.scheduler()
             exprs = [self.lazy(*items[j]) for j in range(lo, hi)]
             if wrap:
@@ -164,6 +172,7 @@ class Real:
             except Exception as e:
                 # a run that raised leaves jobs behind in the scheduler: start a fresh one
                 self._sched = None
+                budget[0] -= 1
                 if hi - lo == 1:
                     t = dict(nv.ERR)
                     t["exc"] = f"{type(e).__name__}: {e}"
@@ -291,6 +300,9 @@ def replay_universe(ctx: Ctx, real: Real, fd: Findings, recs: list, nleaf: int, 
     # the "consequently" clause: lazy expressions anywhere in the containers
     results = real.sched_trees(sched_items, solo={j for j, m in enumerate(sched_meta) if m[2]})
     for (v, family, _), (fseq, want_m, devs, nontrivial), got in zip(sched_items, sched_meta, results):
+        if got is None:  # not run: the bisection budget of a failing batch was used up
+            stats["sched_skipped"] += 1
+            continue
         ok = judge(fd, "Scheduler.run", v, family, fseq, got, want_m, devs, got.get("exc"))
         ctx.count_eval()
         ctx.count_impl_trace()
@@ -391,6 +403,8 @@ def record_cases(ctx: Ctx, real: Real, n: int, depth: int, width: int, nleaf: in
         # run would otherwise take its whole batch down; this is batching, not judging)
         res = real.sched_trees([s[0] for s in sel], wrap=wrap, solo={j for j, s in enumerate(sel) if s[2]})
         for ((tree, family, f), ix, _), got in zip(sel, res):
+            if got is None:
+                continue
             base = cases[ix]
             cases.append({"v": tree, "f": base["f"], "it": base["it"], "vis": base["it"],
                           "r": nv.strip(got), "seam": "sched-arg" if wrap else "sched", "family": family,
@@ -443,7 +457,7 @@ def judge_verdicts(ctx: Ctx, fd: Findings, cases: list, verdicts: dict, count: b
         else:
             stats["ok"] += 1
             if not res_ord:
-                stats["dict_order_drift"] += 1
+                stats["strict_equality_drift_dict_order_or_surviving_equal_key"] += 1
             if not asbuilt_ok:
                 stats["deviation_not_taken"] += 1
     return stats
@@ -473,7 +487,10 @@ def run(ctx: Ctx) -> None:
     if ctx.quick:
         # depth 3 over two leaf values; the roots' child LISTS have one slot, two slots are kept
         # where they play different roles (set elements, dict key/value, init/non-init field)
-        runs = [("d3_l2_w2_rootlists1", dict(nleaf=2, depth=3, width=2, rootw=1)), ("d2_l3_w3_opaque", opaque)]
+        # (frozen dataclasses stay inside the trees; as ROOTS with a non-init field they all take
+        # the same deviation, so the quick tier leaves those 3.8k roots to the thorough tier)
+        runs = [("d3_l2_w2_rootlists1", dict(nleaf=2, depth=3, width=2, rootw=1, top=(ALL_KINDS, "{1, 3}"))),
+                ("d2_l3_w3_opaque", opaque)]
     else:
         runs = [("d3_l2_w2", dict(nleaf=2, depth=3, width=2)), ("d2_l3_w3_opaque", opaque)]
         # the full 3-leaf, depth-3, width-2 universe, one root kind at a time (memory)
@@ -502,7 +519,7 @@ def run(ctx: Ctx) -> None:
                         gen_cfg(invs=LAWS + ["AsBuiltShapeStrict"], dcs="{1}", **small), workers=1)
 
     # ---- 3. code -> spec: random larger values, recorded now, judged by TLC ----------------------
-    n = ctx.pick(500, 6000)
+    n = ctx.pick(300, 6000)
     cases = record_cases(ctx, real, n, depth=ctx.pick(4, 5), width=ctx.pick(3, 4), nleaf=4)
     # negative controls: (a) one yielded leaf dropped, (b) one result leaf changed
     src = next(c for c in cases if c["seam"] == "map" and c["r"]["k"] not in ("error", "leaf", "oleaf", "fset")
@@ -512,6 +529,7 @@ def run(ctx: Ctx) -> None:
     bad_r = copy.deepcopy(src)
     _first_leaf(bad_r["r"])["t"] += 1
     allc = cases + [bad_it, bad_r]
+    _tick(ctx, f"{len(cases)} real executions recorded")
     vfut = pool.submit(validate_cases, ctx, allc, "random")
 
     # ---- 1'. replay of every emitted tree --------------------------------------------------------
@@ -520,6 +538,7 @@ def run(ctx: Ctx) -> None:
         res = expect_clean(futs.pop(k).result(), f"Values_Gen laws ({name})")
         start(k + ahead)
         ctx.add_tlc(res)
+        _tick(ctx, f"universe {name} enumerated by TLC")
         recs = res.recs("TREE")
         res.out = ""
         res.records = {}
@@ -529,10 +548,11 @@ def run(ctx: Ctx) -> None:
         total += replay_universe(ctx, real, fd, recs, kw["nleaf"], name, sched_every=every,
                                  corrupt_control=(k == 0))
         if k == 0:
-            mid = recs[len(recs) // 2]
+            mid = next(r for r in recs[len(recs) // 2:] if not r["d"] and len(r["l"]) >= 2)
             ctx.sample({"source": f"tlc-universe {name}", "tree": mid["v"], "leaves": mid["l"],
                         "mapped": mid["m"]})
         del recs
+    _tick(ctx, "universes replayed")
     ctx.note("replay_totals", dict(total))
 
     # ---- 2'. controls ---------------------------------------------------------------------------
@@ -548,6 +568,7 @@ def run(ctx: Ctx) -> None:
     # ---- 3'. verdicts on the recorded executions ---------------------------------------------------
     verdicts = vfut.result()
     pool.shutdown()
+    _tick(ctx, "recorded executions judged by TLC")
     ctx.negative_control(verdicts[len(cases) + 1][0] == 0, "a recorded iteration with one leaf dropped must be rejected by TLC")
     ctx.negative_control(verdicts[len(cases) + 2][2] == 0, "a recorded result with one leaf changed must be rejected by TLC")
     stats = judge_verdicts(ctx, fd, cases, {i: verdicts[i] for i in range(1, len(cases) + 1)})
@@ -572,22 +593,18 @@ def _first_leaf(tree: dict):
 
 
 def extras(ctx: Ctx, real: Real, fd: Findings) -> None:
-    """Hand-listed type variants the generated families do not contain; judged by TLC as well."""
+    """Type variants outside the generated families (compared directly, they have no tree kind of
+    their own), and the record of which container classes the code treats as leaves."""
     import collections
-    import typing
 
     tn = nv.NTTyped(1001, 1002)
     nd = collections.namedtuple("ND", "a b", defaults=[1003])(1001)
     inc = lambda x: x + 1 if type(x) is int else x  # noqa: E731
-    leaves_seen = []
-    cases = []
-    for name, obj, nt_arity in (("typing.NamedTuple", tn, 2), ("namedtuple-with-default", nd, 2)):
+    for name, obj in (("typing.NamedTuple", tn), ("namedtuple-with-default", nd)):
         res = real.map(inc, obj)
-        ok = type(res) is type(obj) and tuple(res) == tuple(inc(x) for x in obj)
-        if not ok:
+        if not (type(res) is type(obj) and tuple(res) == tuple(inc(x) for x in obj)):
             fd.new(f"{name} rebuilt as {type(res).__name__} {res!r}", {"extra": name})
         ctx.count_eval()
-    # which container classes are leaves for the code (stated in the report / evidence)
     probes = {"frozenset": frozenset([1]), "list subclass": nv.MyList([1]), "dict subclass": nv.MyDict(a=1),
               "set subclass": nv.MySet([1]), "tuple subclass": nv.MyTuple((1,)),
               "OrderedDict": collections.OrderedDict(a=1), "defaultdict": collections.defaultdict(int, a=1),
@@ -596,12 +613,12 @@ def extras(ctx: Ctx, real: Real, fd: Findings) -> None:
     for name, obj in probes.items():
         it = list(real.iter(obj))
         as_leaf[name] = len(it) == 1 and it[0] is obj
-        seen = []
+        seen: list = []
         real.map(lambda x: seen.append(x) or x, obj)
-        ctx.require((len(seen) == 1 and seen[0] is obj) == as_leaf[name],
-                    f"iterator and mapper disagree on whether {name} is a leaf")
+        if (len(seen) == 1 and seen[0] is obj) != as_leaf[name]:
+            fd.new(f"iter_nested_value and map_nested_value disagree on whether a {name} is a leaf",
+                   {"extra": name})
     ctx.note("classes_treated_as_leaves", as_leaf)
-    del leaves_seen, cases, typing
 
 
 def replay(ctx: Ctx, rec: dict) -> None:
